@@ -82,6 +82,8 @@ pub struct GenParams {
     pub cjk_names: bool,
     /// draw names from a pool of a thousand numbered names (containers with hundreds of DISTINCT elements)
     pub many_names: bool,
+    /// draw names from words that occur in real NARS input (SELF, good, op names, numbers as names ...)
+    pub domain_names: bool,
 }
 
 const NAMES: [&str; 14] = ["A", "B", "C", "D", "robin", "bird", "x1", "Z9", "E", "F", "G", "H", "tweety", "k2"];
@@ -102,7 +104,18 @@ fn gen_atom(ch: &mut Choices, p: &GenParams) -> Desc {
 
 const CJK_NAMES: [&str; 8] = ["将军", "现场", "曾经", "具体", "雨", "人", "湿地", "我"];
 
+// words that occur in real NARS input, numbered device names sharing long prefixes, and a few
+// classic FNV-1a/32 collision pairs (weak 32-bit keys are a classic way to "order" operands)
+const DOMAIN_NAMES: [&str; 36] = [
+    "SELF", "self", "good", "bad", "left", "right", "ball", "do", "any", "some", "op", "word", "robin", "bird", "animal", "tim", "0", "1", "42", "t001", "true", "null", "x", "y",
+    "switch001", "switch002", "corridor001", "corridor002", "sensor0001", "sensor0002",
+    "costarring", "liquid", "declinate", "macallums", "altarage", "zinke",
+];
+
 fn gen_name(ch: &mut Choices, p: &GenParams) -> String {
+    if p.domain_names && ch.chance(1, 2) {
+        return DOMAIN_NAMES[ch.choose(DOMAIN_NAMES.len() as u32) as usize].to_string();
+    }
     if p.many_names {
         return format!("n{}", ch.choose(1000));
     }
